@@ -18,8 +18,8 @@ Proof.
 Qed.
 
 (** the validity clause of the MTG copy on raw graphs: configured labels equal after the defaults, and every bond between
-    mapped atoms present on both sides with float()-equal values of THE edge attribute (a missing or non-castable value
-    matches nothing), or absent on both sides *)
+    mapped atoms present on both sides with matching values of THE edge attribute (float() equality, == for values float()
+    rejects, missing only against missing -- after repair /repo 24a0150), or absent on both sides *)
 Definition raw_common_induced_mtg (cfg : config) (k : N) (ga gb : rgraph) (m : mapping) : Prop :=
   NoDup (map fst m) /\ NoDup (map snd m) /\
   (forall p h, In (p, h) m ->
